@@ -474,7 +474,8 @@ OBLIGATIONS = (
         Ob("c05e_slice", {"LEN": 2}, 900, tier="thorough", search=True, note="general slices; the backend only uses the SLICES instantiations"),
     ]
     + [Ob("c05e_slice_backend", {"LEN": 3, "SL": i}, 120) for i in range(len(SLICES))]
-    + [Ob("c05e_slice_backend", {"LEN": 4, "SL": i}, 600, tier="thorough") for i in range(len(SLICES))]
+    + [Ob("c05e_slice_backend", {"LEN": 4, "SL": i}, 600) for i in range(len(SLICES))]
+    + [Ob("c05e_slice_backend", {"LEN": 5, "SL": i}, 1200, tier="thorough") for i in range(len(SLICES))]
     + [
     ]
     + [Ob("c05c_convert", {"LEN": 3, "CFG": c}, 180) for c in range(len(CFGS)) if c != 3]
